@@ -6,9 +6,9 @@ CONSTANTS
   FloorN = 1000
   Variants = {"mem","redis"}
   Caps = {99}
-  AllowEvictLive = FALSE
-  AllowForeignDelete = FALSE
-  AllowForeignShorten = FALSE
+  AllowEvictLive = TRUE
+  AllowForeignDelete = TRUE
+  AllowForeignShorten = TRUE
   MaxHist = 0
 INVARIANTS MutualExclusion OnlyOwnerReleases NeverTainted
 CONSTRAINT HighWater
